@@ -271,13 +271,25 @@ def driver_source(enums, fields, total, bufs):
     return "\n".join(L) + "\n", expect
 
 
+def literal_signed_narrow():
+    """Literal reproducer of the known finding C19-signed-enum-not-sign-extended."""
+    e = EnumModel("Top0x", [])
+    e.is_signed = True
+    e.maximum_bits = 16
+    e.values = [("NEG_ONE", -1, ["SHOUTY_CASE"], None), ("POS_ONE", 1, ["SHOUTY_CASE"], None)]
+    ie = EnumModel("Kind", ["Holder"])
+    ie.values = [("AA", 0, ["SHOUTY_CASE"], None)]
+    text = '[$default byte_order: "LittleEndian"]\n[(cpp) namespace: "v::en"]\nenum Top0x:\n  [maximum_bits: 16]\n  [is_signed: true]\n  NEG_ONE = -1\n  POS_ONE = 1\nstruct Holder:\n  0 [+1]  enum  kind:\n    AA = 0\n  1 [+1]  Top0x  f1\n'
+    return text, [e, ie], [("kind", ie, 0, 8), ("f1", e, 1, 8)], 2
+
+
 def build_case(seed):
-    rnd = random.Random(seed)
-    text, enums, fields, total = build_module(rnd)
+    rnd = random.Random(seed if seed != "literal" else 0)
+    text, enums, fields, total = build_module(rnd) if seed != "literal" else literal_signed_narrow()
     r = emb.compile_files({"m.emb": text})
     if not r.accepted:
         return {"rejected": True, "text": text, "why": (r.exc_sig or r.errors[0][0].message.split("\n")[0])}
-    bufs = []
+    bufs = [[0xFF] * total] if seed == "literal" else []
     for _ in range(6):
         k = rnd.random()
         if k < 0.3:
@@ -299,8 +311,8 @@ def run(ctx):
     rnd = random.Random(ctx.seed * 32452843 + 11)
     root = os.path.join(ctx.tmp, "c19")
     cases = []
-    for i in range(nmod):
-        c = build_case(rnd.randrange(2**62))
+    for i in range(nmod + 1):
+        c = build_case(rnd.randrange(2**62) if i < nmod else "literal")
         if c["rejected"]:
             stats.discards += 1
             stats.classes["rejected:" + str(c["why"])[:70]] += 1
